@@ -61,7 +61,11 @@ class Ctx(object):
         return self._graphs[cmd]
 
     def check_graph_health(self, cmd, b):
-        bad = b.nodes('unresolved', 'unclassified-prim', 'recursion-cut')
+        self.recursion_cuts = getattr(self, 'recursion_cuts', [])
+        for n in b.nodes('recursion-cut'):
+            self.recursion_cuts.append('%s graph: recursive call of %s cut at %s' % (
+                cmd, n.data.get('func'), n.loc()))
+        bad = b.nodes('unresolved', 'unclassified-prim')
         for n in bad:
             raise AnalysisError('%s graph: %s at %s: %s' % (
                 cmd, n.kind, n.loc(), n.data.get('what') or n.data.get('prim')
@@ -222,6 +226,12 @@ def run_check(prop, module, repo, tier, evidence_dir=None, replay_dir=None, quie
     try:
         ctx = Ctx(prop, repo, tier)
         module.check(ctx)
+        if getattr(ctx, 'recursion_cuts', None) and not ctx.findings:
+            # the body of a recursive function is analysed once; a pass obtained with
+            # a recursion cut in the graph is not trusted
+            raise AnalysisError('; '.join(sorted(set(ctx.recursion_cuts))[:3]))
+        for rc in sorted(set(getattr(ctx, 'recursion_cuts', []))):
+            ctx.note(rc)
         if hasattr(module, 'MINIMUM') and not ctx.findings:
             # vacuity guard: a rule that matched fewer sites than confirmed by
             # hand must not pass silently (skipped when findings are reported)
